@@ -34,58 +34,88 @@ static void check_case(vg::Src& s, vh::Ctx& c)
         { "mst(boruvka,basic)", { vg::op_single(0), vg::op_mst(va::MST_BORUVKA, va::ROUTE_BASIC) } },
         { "mst(boruvka,carve)", { vg::op_single(0), vg::op_mst(va::MST_BORUVKA, va::ROUTE_CARVE) } },
     };
-    // a generated subset (at least two) so that a case stays cheap but every pair occurs
+    // a generated subset (at least two) so that a case stays cheap but every pair occurs;
+    // 1-2 updates on the same graphs (settings and field replaced in between)
     uint8_t pick = s.u8();
-    std::vector<std::vector<double>> outs;
-    std::vector<std::string> names;
+    size_t rounds = s.chance(90) ? 2 : 1;
+    c.label("rounds=" + std::to_string(rounds));
     auto grid = va::make_grid(fc.sp);
+    std::vector<std::unique_ptr<va::IGraph>> graphs;
+    std::vector<std::string> names;
     for (size_t v = 0; v < vars.size(); ++v)
     {
         if (!((pick >> v) & 1) && !(v == pick % 6) && !(v == (pick / 6 + 1 + pick % 6) % 6))
             continue;
-        auto graph = va::make_graph(*grid, vars[v].ops);
-        apply_settings(*graph, fc);
-        auto res = graph->update_routes(fc.z);
-        const auto& f = res.out;
-        for (size_t i = 0; i < n; ++i)
-            if (!vg::biteq(res.input_after[i], fc.z[i]))
-                c.fail("input-modified", std::string(vars[v].name) + ": caller's elevation changed at node " + std::to_string(i));
-        if (res.same_object)
-            c.fail("returned-input-object", std::string(vars[v].name) + ": update_routes returned the caller's array although a resolver edits elevation");
-        for (size_t i = 0; i < n; ++i)
-        {
-            std::string at = std::string(vars[v].name) + " node " + std::to_string(i) + " z=" + vg::fmt(fc.z[i]) + " f=" + vg::fmt(f[i]);
-            if (fc.masked(i) || fc.isbase[i])
-            {
-                if (!vg::biteq(f[i], fc.z[i]))
-                    c.fail("base-or-masked-changed", at);
-                continue;
-            }
-            if (!(f[i] >= fc.z[i]))
-                c.fail("lowered", at);
-            if (!fc.reach[i])
-                continue;
-            long long d = vg::ulpdist(lev[i], f[i]);
-            if (d < 0)
-                c.fail("below-spill-level", at + " spill level " + vg::fmt(lev[i]) + " (" + std::to_string(d) + " ulp)");
-            if (d > static_cast<long long>(n))
-                c.fail("above-spill-level", at + " spill level " + vg::fmt(lev[i]) + " (+" + std::to_string(d) + " ulp, margin " + std::to_string(n) + ")");
-        }
-        outs.push_back(f);
+        graphs.push_back(va::make_graph(*grid, vars[v].ops));
+        apply_settings(*graphs.back(), fc);
         names.push_back(vars[v].name);
         c.label(std::string("variant=") + vars[v].name);
     }
-    // variants agree within the margin
-    for (size_t a = 0; a < outs.size(); ++a)
-        for (size_t bb = a + 1; bb < outs.size(); ++bb)
+    for (size_t round = 0; round < rounds; ++round)
+    {
+        std::string tag = "update#" + std::to_string(round + 1) + " ";
+        if (round > 0)
+        {
+            std::string what = mutate_settings(s, fc, *graphs[0], o.every_component);
+            for (size_t g = 1; g < graphs.size(); ++g)
+            {
+                if (!fc.mask.empty())
+                    graphs[g]->set_mask(fc.mask);
+                graphs[g]->set_base_levels(fc.bl);
+            }
+            fc.z = vg::gen_field(s, fc.m);
+            lev = spill_levels(fc);
+            for (size_t i = 0; i < n; ++i)
+                if (!fc.masked(i) && fc.reach[i] && lev[i] > fc.z[i])
+                    has_depression = true;
+            c.desc += " |" + what + " update(z=" + vg::describe_field(fc.z, 0) + ")";
+            if (c.verbose)
+                std::cout << "STEP" << what << " update(z=" << vg::describe_field(fc.z, 0) << ")" << std::endl;
+        }
+        std::vector<std::vector<double>> outs;
+        for (size_t g = 0; g < graphs.size(); ++g)
+        {
+            auto res = graphs[g]->update_routes(fc.z);
+            const auto& f = res.out;
+            std::string vn = tag + names[g];
+            for (size_t i = 0; i < n; ++i)
+                if (!vg::biteq(res.input_after[i], fc.z[i]))
+                    c.fail("input-modified", vn + ": caller's elevation changed at node " + std::to_string(i));
+            if (res.same_object)
+                c.fail("returned-input-object", vn + ": update_routes returned the caller's array although a resolver edits elevation");
             for (size_t i = 0; i < n; ++i)
             {
-                if (fc.masked(i) || !fc.reach[i])
+                std::string at = vn + " node " + std::to_string(i) + " z=" + vg::fmt(fc.z[i]) + " f=" + vg::fmt(f[i]);
+                if (fc.masked(i) || fc.isbase[i])
+                {
+                    if (!vg::biteq(f[i], fc.z[i]))
+                        c.fail("base-or-masked-changed", at);
                     continue;
-                long long d = vg::ulpdist(outs[a][i], outs[bb][i]);
-                if (d > static_cast<long long>(n) || d < -static_cast<long long>(n))
-                    c.fail("variants-disagree", names[a] + " vs " + names[bb] + " node " + std::to_string(i) + ": " + vg::fmt(outs[a][i]) + " vs " + vg::fmt(outs[bb][i]));
+                }
+                if (!(f[i] >= fc.z[i]))
+                    c.fail("lowered", at);
+                if (!fc.reach[i])
+                    continue;
+                long long d = vg::ulpdist(lev[i], f[i]);
+                if (d < 0)
+                    c.fail("below-spill-level", at + " spill level " + vg::fmt(lev[i]) + " (" + std::to_string(d) + " ulp)");
+                if (d > static_cast<long long>(n))
+                    c.fail("above-spill-level", at + " spill level " + vg::fmt(lev[i]) + " (+" + std::to_string(d) + " ulp, margin " + std::to_string(n) + ")");
             }
+            outs.push_back(f);
+        }
+        // variants agree within the margin
+        for (size_t a2 = 0; a2 < outs.size(); ++a2)
+            for (size_t bb = a2 + 1; bb < outs.size(); ++bb)
+                for (size_t i = 0; i < n; ++i)
+                {
+                    if (fc.masked(i) || !fc.reach[i])
+                        continue;
+                    long long d = vg::ulpdist(outs[a2][i], outs[bb][i]);
+                    if (d > static_cast<long long>(n) || d < -static_cast<long long>(n))
+                        c.fail("variants-disagree", tag + names[a2] + " vs " + names[bb] + " node " + std::to_string(i) + ": " + vg::fmt(outs[a2][i]) + " vs " + vg::fmt(outs[bb][i]));
+                }
+    }
     c.nontrivial = has_depression;
     if (has_depression)
         c.label("has-depression");
